@@ -217,7 +217,12 @@ func (sess *hopSession) startCodex(t1, t2 *tubes.Reliable) {
 		stdinTube = t2
 		stdoutTube = t1
 	}
-	cmd, termEnv, shell, size, _ := codex.GetCmd(stdinTube)
+	cmd, termEnv, shell, size, cmdErr := codex.GetCmd(stdinTube)
+	if cmdErr != nil {
+		logrus.Errorf("S: could not read the execution request: %v", cmdErr)
+		codex.SendFailure(stdoutTube, cmdErr)
+		return
+	}
 	principalSess := sess.ID
 	// if using an authgrant, check that the cmd is authorized
 	if sess.usingAuthGrant {
